@@ -120,6 +120,46 @@ class Repo:
                     self.respelled['%s:<phase A>' % m.name] = m.respelled
         if self.normalised:
             self._funcs = None
+        # functions the reference snapshot does not know (helpers a change introduced and that could not be substituted back into their callers): the
+        # interpretation models interpret calls to them in place, whatever resolver the model itself uses
+        try:
+            refnames = {k for k in (canon.load_reference() or {}) if not k.startswith('<')}
+        except Exception:      # noqa: BLE001
+            refnames = set()
+        self.new_funcs = {}
+        if refnames:
+            for (mn, q), fn in self.all_funcs().items():
+                if '%s:%s' % (mn, q) not in refnames:
+                    self.new_funcs[(mn, q)] = fn
+        from . import listinterp as _li
+        repo_self = self
+
+        def _fallback(call):
+            if not repo_self.new_funcs:
+                return None
+            f = call.func
+            mod = getattr(call, '_module', None)
+            mn = getattr(mod, 'name', None)
+            if mn is None:
+                return None
+            if isinstance(f, ast.Name):
+                g = repo_self.new_funcs.get((mn, f.id))
+                if g is not None:
+                    return g
+                encl = getattr(call, '_func', None)
+                while encl is not None:          # a new nested function of an enclosing function
+                    g = repo_self.new_funcs.get((mn, '%s.%s' % (getattr(encl, '_qualname', encl.name), f.id)))
+                    if g is not None:
+                        return g
+                    encl = getattr(encl, '_func', None)
+                return None
+            if isinstance(f, ast.Attribute) and isinstance(f.value, ast.Name):
+                cls = getattr(call, '_cls', None)
+                if f.value.id in ('self', 'cls') and cls is not None:
+                    return repo_self.new_funcs.get((mn, '%s.%s' % (cls._qualname, f.attr)))
+                return repo_self.new_funcs.get((mn, '%s.%s' % (f.value.id, f.attr)))
+            return None
+        _li.Interp.fallback_resolver = staticmethod(_fallback)
 
     # -- lookup ------------------------------------------------------------------------------
     def mod(self, name):
